@@ -678,6 +678,20 @@ pub fn suite_enc(t: &mut Tracer, tier: Tier, seed: u64) {
         ("aa-first".into(), "2".into()),
     ]);
     maps.push(vec![(":status".into(), "403".into()), ("x".into(), "y".into())]);
+    // field names that sort BEFORE ':' (0x3a) as bytes: digits and ! # $ % & ' * + - .
+    // (pseudo-header fields still come first: RFC 9114 4.3)
+    for first in ["1st-party", "0", "9z", "-x", "#tag", "!bang", "*star", "+plus", ".dot", "$d", "%p", "&a", "'q"] {
+        maps.push(vec![
+            (":method".into(), "CONNECT".into()),
+            (":scheme".into(), "https".into()),
+            (":protocol".into(), "webtransport".into()),
+            (":authority".into(), "localhost".into()),
+            (":path".into(), "/".into()),
+            (first.into(), "v".into()),
+            ("zz".into(), "w".into()),
+        ]);
+        maps.push(vec![(":status".into(), "200".into()), (first.into(), "v".into())]);
+    }
     for len in [0usize, 1, 5, 6, 7, 8, 9, 126, 127, 128, 129, 300] {
         // Huffman-shrinking (lower-case letters) and non-shrinking (symbols) strings
         let shrink: Vec<u8> = (0..len).map(|i| b"aeiost"[i % 6]).collect();
